@@ -10,6 +10,7 @@ scn: variant 'tcp' (ModbusClientProtocol + socket framer, dict manager) |
        {'e':'unsolicited','tid':t}                    deliver a well-formed reply nobody asked for
        {'e':'dup','id':n}                             deliver request n's reply once more
        {'e':'lose'}                                   connectionLost
+       {'e':'close'}                                  the application calls protocol.close() (a 'lose' follows later)
      Replies carry unique register values derived from the request id.
 """
 from sim import seams
@@ -217,6 +218,14 @@ def run(scn, keep_log=False):
                 if ev['id'] in reqs:
                     k.log('rx-dup', ev['id'])
                     feed(frame_for(ev['id']))
+            elif e == 'close':
+                # the application closes the client; the transport reports the loss later ('lose')
+                connected = False
+                k.log('close')
+                try:
+                    proto.close()
+                except Exception as ex:
+                    stray_errors.append('close:' + type(ex).__name__)
             elif e == 'lose':
                 connected = False
                 k.log('lose')
